@@ -110,7 +110,7 @@ Proof.
     - constructor.
     - apply Hrt; [apply Hc|]. intros; apply hvr_reqs. }
   unfold round_trip. destruct (negb _).
-  - unfold handle_unrecognized_method; constructor; [exact Hq|]. intros [|r]; [constructor|].
+  - unfold handle_unrecognized_method; destruct (req_only_if_cached _); [constructor|]; constructor; [exact Hq|]. intros [|r]; [constructor|].
     destruct (_ && _); [|constructor].
     unfold get_refs_clean; constructor; intros ans.
     unfold invalidate_cache. destruct (ref_ids _); [|constructor].
